@@ -246,7 +246,15 @@ namespace Track
 	  std::optional<unsigned int> found = find_record_address_mark();
 	  if (!found)
 	    break;
-	  if (next_id && next_id->first < thisbit)
+	  // A floppy disc controller also gives up if the record's
+	  // address mark does not turn up within a few tens of byte
+	  // times of the sector ID (30 for the WD1770 in single
+	  // density).  Without a limit, if the next sector's ID mark is
+	  // unreadable too we would still pair this ID with that
+	  // sector's record.
+	  constexpr size_t max_id_to_record_bits = 16u * 40u;
+	  if ((next_id && next_id->first < thisbit)
+	      || (thisbit - search_start) > max_id_to_record_bits)
 	    {
 	      if (verbose)
 		{
